@@ -1,6 +1,19 @@
 (* C19 - every event is delivered once to every backend with its fields intact.
    Statements only.
 
+   Fields (Model/Events.v part A): [standalone pf ns th now ip io line] is what every backend's SendEvent
+   receives for [line] sent by address [ip] at time [now] (time.Now().Unix() in the parser), composed from
+   the component models: Lexer.lex (C02) -> parser (source := sender, date 0 := now) -> cloud stage
+   (Cloud.update_inplace, C11; [io] = the instance of the lookup's answer for ip, None = failed / negative
+   lookup or no provider) -> tag stage (Tags.dispatch_event, C10; [th] built by NewTagHandler from the
+   static tags) -> the same *Event to every backend.  [forwarded ...] continues through the forwarder's
+   protobuf message (Wire.event_to_pb), the ingesting server's EventHandler (Wire.event_from_pb, C14), its
+   cloud stage (answer [ioS] for the forwarded source) and tag stage [thS]; [ingested thS ioS p] is that
+   tail alone for a posted message p.  [render_event title text attrs] is the event line of the documented
+   grammar (Model/LexGrammar.v; any bytes, attributes d: h: k: p: s: t: #tags and unknown fields in any
+   order and multiplicity, a later attribute overriding an earlier one: [apply_eattr]); [unescape] turns
+   each "\n" pair into a newline; [dedup l] = l without repetitions (first occurrences).
+
    Bookkeeping (Model/Events.v part B): the labelled transition system [fstep c] of CloudHandler.wg and
    BackendHandler.DispatchEvent / internalDispatchEvent / WaitForEvents for a configuration [c] with
    [nb c] backends (any number, 0 included) and max-concurrent-events [cap c].  Labels = atomic actions
@@ -13,8 +26,74 @@
    ctx.Done before reaching b; waiting = copies of e parked in the cloud stage or with a releaser;
    quiescent = nothing parked, no releaser, no loop, no goroutine; outstanding / held = what the two
    WaitGroup counters are meant to count; cnt p l = number of elements of l satisfying p. *)
+From GS Require Import Base.Bytes Base.LTS Model.Lexer Model.LexGrammar Model.Cloud Model.Tags Model.Events
+  Proofs.Events Proofs.EventsLTS.
+From GS Require Model.Wire.
 From stdpp Require Import list list_numbers.
-From GS Require Import Base.Bytes Base.LTS Model.Events Proofs.EventsLTS.
+
+(* Every event line of the grammar reaches every backend with: its title; its text with escaped newlines
+   restored; the d: time, or the receipt time when absent (or 0); aggregation key, source type, priority
+   and alert type as written (defaults "", "", normal, info); as source the instance id after a positive
+   lookup and the sender address otherwise - never the h: attribute; and as tags, without repetition,
+   its own tags, the instance's tags and the static tags. *)
+Theorem C19_fields :
+  forall (pf : str -> pfres) (ns : str) (static : list str) (filters : list Tags.filter) (th : tag_handler)
+         (now : Z) (ip : str) (io : option instance) (title text : str) (attrs : list eattr),
+    (N.of_nat (length title) <= max_uint32)%N -> (N.of_nat (length text) <= max_uint32)%N ->
+    Forall wf_eattr attrs ->                       (* fields without '|', tags without ',' '|' NUL *)
+    new_tag_handler static filters = Done th ->
+    let e0 := fold_left apply_eattr attrs (empty_event title (unescape text)) in
+    exists tags,
+      standalone pf ns th now ip io (render_event title text attrs) =
+        Delivered (CEvent title (unescape text)
+                          (if (Lexer.e_date e0 =? 0)%Z then now else Lexer.e_date e0)
+                          (Lexer.e_key e0) (Lexer.e_stype e0) tags
+                          (match io with Some i => inst_id i | None => ip end)
+                          (Z.of_N (Lexer.e_pri e0)) (Z.of_N (Lexer.e_alert e0)))
+      /\ tags ≡ₚ dedup (eattrs_tags attrs ++ inst_tags_of io ++ static)
+      /\ NoDup tags.
+Proof. exact fields. Qed.
+Print Assumptions C19_fields.
+
+(* Forwarder mode: what the ingesting server's backends receive is the event [e] the forwarder's own
+   stages produced (C19_fields), every field intact across the wire, with the server's instance tags and
+   static tags added (and its instance id as source after a positive lookup of the forwarded source). *)
+Theorem C19_fields_forwarded :
+  forall (pf : str -> pfres) (ns : str) (static : list str) (filters : list Tags.filter) (th : tag_handler)
+         (now : Z) (ip : str) (io : option instance)
+         (staticS : list str) (filtersS : list Tags.filter) (thS : tag_handler) (ioS : option instance)
+         (title text : str) (attrs : list eattr),
+    (N.of_nat (length title) <= max_uint32)%N -> (N.of_nat (length text) <= max_uint32)%N ->
+    Forall wf_eattr attrs ->
+    new_tag_handler static filters = Done th -> new_tag_handler staticS filtersS = Done thS ->
+    exists e tags,
+      standalone pf ns th now ip io (render_event title text attrs) = Delivered e
+      /\ forwarded pf ns th now ip io thS ioS (render_event title text attrs) =
+           Delivered (CEvent (ev_title e) (ev_text e) (ev_date e) (ev_agg e) (ev_stn e) tags
+                             (match ioS with Some i => inst_id i | None => ev_src e end)
+                             (ev_prio e) (ev_alert e))
+      /\ tags ≡ₚ dedup (ev_tags e ++ inst_tags_of ioS ++ staticS) /\ NoDup tags.
+Proof. exact fields_forwarded. Qed.
+Print Assumptions C19_fields_forwarded.
+
+(* An event message received on the HTTP ingestion endpoint: every field as sent (Hostname is the source,
+   enum values outside the declared ones become normal / info, the date is taken as it is), instance and
+   static tags added. *)
+Theorem C19_fields_ingested :
+  forall (static : list str) (filters : list Tags.filter) (th : tag_handler) (io : option instance)
+         (p : Wire.pb_event),
+    new_tag_handler static filters = Done th ->
+    exists tags,
+      ingested th io p =
+        Delivered (CEvent (Wire.pe_title p) (Wire.pe_text p) (Wire.pe_date p) (Wire.pe_aggkey p)
+                          (Wire.pe_srctype p) tags
+                          (match io with Some i => inst_id i | None => Wire.pe_hostname p end)
+                          (if (Wire.pe_priority p =? 1)%Z then 1 else 0)%Z
+                          (if (Wire.pe_type p =? 1)%Z then 1 else if (Wire.pe_type p =? 2)%Z then 2
+                           else if (Wire.pe_type p =? 3)%Z then 3 else 0)%Z)
+      /\ tags ≡ₚ dedup (Wire.pe_tags p ++ inst_tags_of io ++ static) /\ NoDup tags.
+Proof. exact fields_ingested. Qed.
+Print Assumptions C19_fields_ingested.
 
 (* Exactly once per backend.  In every reachable state, for every event e and backend b < nb c, every
    arrival of e is accounted for exactly once: delivered to b, in flight to b, not yet reached by its
